@@ -215,3 +215,36 @@ v("c20-unfix-root-ast-node", "C20", "KIND-ATTR", T + "validate.py",
 v("c11-unfix-edit-sentinel", "C11", "EDIT-SENTINEL", L + "visitor.py",
   "                    values = {k: getattr(node, k) for k in node.keys}\n                    for edit_key, edit_value in edits:\n                        values[edit_key] = (\n                            None\n                            if edit_value is REMOVE or edit_value is Ellipsis\n                            else edit_value\n                        )\n",
   "                    values = {k: getattr(node, k) for k in node.keys} | dict(edits)\n")
+
+# -- C03 / C06 ------------------------------------------------------------------------------------
+E = "src/graphql/execution/"
+v("c03-unfix-id-pin", "C03", "ID-PIN", E + "executor.py",
+  "            relevant_sub_fields[key] = (tuple(field_details_list), collected_fields)", "            relevant_sub_fields[key] = (None, collected_fields)")
+v("c03-serial-for-queries", "C03", "SERIAL", E + "executor.py",
+  "                operation_type == OperationType.MUTATION\n                if serially is None", "                operation_type != OperationType.QUERY\n                if serially is None")
+v("c03-equivalent-refactor-await-first", "C03", "SERIAL", "src/graphql/pyutils/async_reduce.py",
+  "                result: AwaitableOrValue[U] = callback(\n                    await current_accumulator, current_value\n                )",
+  "                acc = await current_accumulator\n                result: AwaitableOrValue[U] = callback(acc, current_value)", expect="silent")
+v("c03-serial-not-awaited", "C03", "SERIAL", "src/graphql/pyutils/async_reduce.py",
+  "                return await result if is_awaitable(result) else result  # type: ignore\n\n            accumulator = async_callback(cast(\"Awaitable[U]\", accumulator), value)",
+  "                return await result if is_awaitable(result) else result  # type: ignore\n\n            accumulator = ensure_future(async_callback(cast(\"Awaitable[U]\", accumulator), value))")
+v("c03-serial-set-result-no-await", "C03", "SERIAL", E + "executor.py",
+  "                    results[response_name] = await result\n                    return results",
+  "                    results[response_name] = result\n                    return results")
+v("c03-key-created-late", "C03", "KEY-ORDER", E + "executor.py",
+  "                results.update(zip(awaitable_fields, awaited_results, strict=True))",
+  "                for field, value in zip(awaitable_fields, awaited_results, strict=True):\n                    results.pop(field)\n                    results[field] = value")
+v("c06-unfix-hook-sync-abort", "C06", "HOOK-ONCE", E + "executor.py",
+  "        except Exception:\n            # e.g. the abort reason raised while executing root fields serially\n            self.run_async_work_finished_hook()\n            raise\n", "")
+v("c06-hook-twice", "C06", "HOOK-ONCE", E + "executor.py",
+  "                    except GraphQLError as error:\n                        self.collected_errors.add(error, None)\n                        return self.build_response(None)",
+  "                    except GraphQLError as error:\n                        self.collected_errors.add(error, None)\n                        self.run_async_work_finished_hook()\n                        return self.build_response(None)")
+v("c06-unfix-abort-signal-task", "C06", "CANCEL-SETTLE", E + "executor.py",
+  "                task.cancel()\n                with suppress(BaseException):\n                    await task\n                raise", "                task.cancel()\n                raise")
+v("c06-subscribe-finally-order", "C06", "FIN-CLEANUP", E + "incremental/incremental_publisher.py",
+  "            await work_queue.cancel()\n            await context.cancel_incremental_work()\n            context.run_async_work_finished_hook()",
+  "            context.run_async_work_finished_hook()\n            await work_queue.cancel()\n            await context.cancel_incremental_work()")
+v("c06-gather-fail-fast", "C06", "CLEANUP-GATHER", E + "incremental/stream_item_queue.py",
+  "            await gather(*pending, return_exceptions=True)", "            await gather(*pending)")
+v("c06-abort-result-dropped", "C06", "ABORT-RESULT-USED", E + "incremental/work_queue.py",
+  "        abort_result = stream.queue.abort(reason)\n        if is_awaitable(abort_result):\n            cancel_awaitables.append(abort_result)", "        stream.queue.abort(reason)")
